@@ -1,5 +1,10 @@
 //! C06 — component number-format conversion (palette/src/stimulus.rs).
 //!
+//! Not in the table (CBMC did not finish within 1500 s on 5 cores, so they are listed as not decided
+//! instead of being registered as flaky obligations): f64->u32 (F4), u64->u16, u64->u32, u128->u16,
+//! u128->u32 (N1-N3). Their code is the same macro arm as the discharged neighbours
+//! (convert_double_to_uint!, convert_uint_to_uint! via f64).
+//!
 //! Every `IntoStimulus<U> for T` impl is put under a single-call contract against a
 //! spec expression written here from the property statement (not from the code):
 //!   float -> uint   x <= 0 | -inf -> 0;  x >= 1 | +inf | NaN -> MAX;
@@ -35,8 +40,8 @@ macro_rules! f2u_small {
               desc: "every bit pattern of the source float: saturation at both ends incl. -inf/+inf/NaN; in [0,1] result is the ties-to-even nearest integer of fl(x*MAX)" }
             fn $name(g) {
                 let x = g.$f();
-                g.cover(x > 0.25 && x < 0.75);
-                g.cover(x < -1.0e9);
+                cov!(g, x > 0.25 && x < 0.75);
+                cov!(g, x < -1.0e9);
                 let y: $u = x.into_stimulus();
                 if x <= 0.0 { ob!("F1.nonpositive_and_neg_infinity_map_to_zero", y == 0); }
                 else if x >= 1.0 { ob!("F2.at_or_above_one_and_infinity_map_to_max", y == $u::MAX); }
@@ -57,7 +62,6 @@ f2u_small! { REG_F2U;
     f32_u32: f32 => u32 via f64, is_rne_f64, u64, quick;
     f64_u8:  f64 => u8  via f64, is_rne_f64, u64, quick;
     f64_u16: f64 => u16 via f64, is_rne_f64, u64, quick;
-    f64_u32: f64 => u32 via f64, is_rne_f64, u64, thorough;
 }
 
 /// 64/128-bit targets: "53 significant bits" — the result, converted back to f64, is the
@@ -71,7 +75,7 @@ macro_rules! f2u_big {
               desc: "every bit pattern: saturation incl. -inf/+inf/NaN; in (0,1): y is within one f64 rounding (53 significant bits) of x*MAX" }
             fn $name(g) {
                 let x = g.$f();
-                g.cover(x > 0.25 && x < 0.75);
+                cov!(g, x > 0.25 && x < 0.75);
                 let y: $u = x.into_stimulus();
                 if x <= 0.0 { ob!("F1.nonpositive_and_neg_infinity_map_to_zero", y == 0); }
                 else if x >= 1.0 { ob!("F2.at_or_above_one_and_infinity_map_to_max", y == $u::MAX); }
@@ -106,7 +110,7 @@ macro_rules! f2u_mono {
             fn $name(g) {
                 let a = g.$f(); let b = g.$f();
                 g.assume(a <= b);
-                g.cover(a < b && a > 0.0 && b < 1.0);
+                cov!(g, a < b && a > 0.0 && b < 1.0);
                 let ya: $u = a.into_stimulus(); let yb: $u = b.into_stimulus();
                 ob!("F5.monotone_non_decreasing", ya <= yb);
             }
@@ -131,7 +135,7 @@ macro_rules! u2f {
             fn $name(g) {
                 let a = g.$u(); let b = g.$u();
                 g.assume(a <= b);
-                g.cover(a < b && a > 0 && b < $u::MAX);
+                cov!(g, a < b && a > 0 && b < $u::MAX);
                 let ya: $f = a.into_stimulus(); let yb: $f = b.into_stimulus();
                 ob!("U1.zero_maps_to_zero", a != 0 || ya == 0.0);
                 ob!("U2.max_maps_to_exactly_one", b != $u::MAX || yb == 1.0);
@@ -165,7 +169,7 @@ macro_rules! widen {
               desc: "all source values: result == x * (MAXv / MAXu) (bit replication), so 0->0, MAX->MAX, strictly monotone" }
             fn $name(g) {
                 let a = g.$u();
-                g.cover(a > 0 && a < $u::MAX);
+                cov!(g, a > 0 && a < $u::MAX);
                 let y: $v = a.into_stimulus();
                 ob!("W1.bit_replication", y == (a as $v) * ($v::MAX / ($u::MAX as $v)));
                 ob!("W2.max_maps_to_max", a != $u::MAX || y == $v::MAX);
@@ -191,7 +195,7 @@ macro_rules! narrow {
             fn $name(g) {
                 let a = g.$u(); let b = g.$u();
                 g.assume(a <= b);
-                g.cover(a < b && a > 0 && b < $u::MAX);
+                cov!(g, a < b && a > 0 && b < $u::MAX);
                 let ya: $v = a.into_stimulus(); let yb: $v = b.into_stimulus();
                 ob!("N1.zero_maps_to_zero", a != 0 || ya == 0);
                 ob!("N2.max_maps_to_max", b != $u::MAX || yb == $v::MAX);
@@ -204,8 +208,8 @@ macro_rules! narrow {
 narrow! { REG_NARROW;
     u16_u8: u16 => u8, quick;
     u32_u8: u32 => u8, thorough; u32_u16: u32 => u16, thorough;
-    u64_u8: u64 => u8, thorough; u64_u16: u64 => u16, thorough; u64_u32: u64 => u32, thorough;
-    u128_u8: u128 => u8, thorough; u128_u16: u128 => u16, thorough; u128_u32: u128 => u32, thorough; u128_u64: u128 => u64, thorough;
+    u64_u8: u64 => u8, thorough;
+    u128_u8: u128 => u8, thorough; u128_u64: u128 => u64, thorough;
 }
 
 // ---- round trips ----
@@ -218,7 +222,7 @@ macro_rules! rt {
               desc: $what }
             fn $name(g) {
                 let a = g.$u();
-                g.cover(a > 0 && a < $u::MAX);
+                cov!(g, a > 0 && a < $u::MAX);
                 let m: $v = a.into_stimulus();
                 let back: $u = m.into_stimulus();
                 ob!("R1.round_trip_is_identity", back == a);
@@ -252,7 +256,7 @@ harnesses! { REG_MISC, "C06", "c06";
     fn u64_u128(g) {
         // (stated with shifts: CBMC 6.11 crashes with SIGFPE on the symbolic u128 multiplication)
         let a = g.u64();
-        g.cover(a > 0 && a < u64::MAX);
+        cov!(g, a > 0 && a < u64::MAX);
         let y: u128 = a.into_stimulus();
         ob!("W1.bit_replication", (y >> 64) as u64 == a && (y as u64) == a);
         ob!("W2.max_maps_to_max", a != u64::MAX || y == u128::MAX);
@@ -264,7 +268,7 @@ harnesses! { REG_MISC, "C06", "c06";
     fn f2f(g) {
         let x = g.f32();
         g.assume(x == x);
-        g.cover(true);
+        cov!(g, true);
         let w: f64 = x.into_stimulus();
         ob!("X1.f32_to_f64_exact", w == x as f64);
         let back: f32 = w.into_stimulus();
@@ -287,7 +291,7 @@ harnesses! { REG_MISC, "C06", "c06";
     fn into_format_forwarding(g) {
         use palette::{Srgb, Srgba, SrgbLuma};
         let (r, gr, b, a) = (g.u8(), g.u8(), g.u8(), g.u8());
-        g.cover(true);
+        cov!(g, true);
         let c: Srgba<u8> = Srgba::new(r, gr, b, a);
         let f: Srgba<f32> = c.into_format();
         let e: (f32, f32, f32, f32) = (r.into_stimulus(), gr.into_stimulus(), b.into_stimulus(), a.into_stimulus());
